@@ -314,7 +314,7 @@ class MetaModule(BaseMetaModule, Module):
     def on_embedded_controller_changed(self, module, controller, value):
         for i, mapping in enumerate(self.mappings.values):
             module_matches = mapping.module == module.index
-            controller_matches = mapping.controller == controller.number
+            controller_matches = mapping.controller == controller.number - 1
             if module_matches and controller_matches:
                 name = self.user_defined[i].name
                 setattr(self, name, value)
